@@ -290,11 +290,19 @@ fn is_a_wait_that_ran_out(e: &str) -> bool {
     e.contains("within 15 s") || e.contains("did not come up") || e.contains("did not restart") || e.contains("did not catch up") || e.contains("no reply to")
 }
 
+/// Three ports nobody in this process has been given before (ten teosd processes are started side by side: asking
+/// the OS for "any free port" and releasing it again lets two of them end up with the same one - one tower's HTTP
+/// front end then talks to another tower's listener and answers "unexpected error").
 fn free_ports() -> (u16, u16, u16) {
-    let a = crate::httpx::free_addr().port();
-    let b = crate::httpx::free_addr().port();
-    let c = crate::httpx::free_addr().port();
-    (a, b, c)
+    static NEXT: std::sync::atomic::AtomicU32 = std::sync::atomic::AtomicU32::new(0);
+    let mut take = || loop {
+        let n = NEXT.fetch_add(1, Ordering::SeqCst);
+        let port = 21000 + ((std::process::id() % 300) * 100 + n % 100 + (n / 100) * 31) as u16 % 11000; // below the ephemeral range the OS hands out
+        if std::net::TcpListener::bind(("127.0.0.1", port)).is_ok() {
+            return port;
+        }
+    };
+    (take(), take(), take())
 }
 
 #[derive(Debug, Clone, PartialEq, Eq)]
